@@ -533,72 +533,96 @@ func (t *Transaction) Wait(table string, timeout *int, where []ovsdb.Condition, 
 	if realTable == nil {
 		return ovsdb.ResultFromError(&ovsdb.NotSupported{})
 	}
-	model, err := dbModel.NewModel(table)
-	if err != nil {
-		return ovsdb.ResultFromError(err)
+	// the given rows as models; a column that a given row does not mention is
+	// not compared for that row
+	type expectedRow struct {
+		info    *mapper.Info
+		columns []string
+	}
+	expected := make([]expectedRow, 0, len(rows))
+	for i := range rows {
+		model, err := dbModel.NewModel(table)
+		if err != nil {
+			return ovsdb.ResultFromError(err)
+		}
+		info, err := dbModel.NewModelInfo(model)
+		if err != nil {
+			return ovsdb.ResultFromError(err)
+		}
+		if err := dbModel.Mapper.GetRowData(&rows[i], info); err != nil {
+			return ovsdb.ResultFromError(err)
+		}
+		e := expectedRow{info: info}
+		for _, column := range columns {
+			if _, ok := rows[i][column]; ok {
+				e.columns = append(e.columns, column)
+			}
+		}
+		expected = append(expected, e)
+	}
+	// matches compares a selected row with a given row on the given row's
+	// columns (sets and maps by content, as '==' does in a condition)
+	matches := func(found *mapper.Info, e expectedRow) (bool, error) {
+		for _, column := range e.columns {
+			x, err := e.info.FieldByColumn(column)
+			if err != nil {
+				return false, err
+			}
+			y, err := found.FieldByColumn(column)
+			if err != nil {
+				return false, err
+			}
+			equal, err := ovsdb.ConditionEqual.Evaluate(y, x)
+			if err != nil || !equal {
+				return false, err
+			}
+		}
+		return true, nil
 	}
 
 Loop:
 	for {
-		var filteredRows []ovsdb.Row
 		foundRowModels, err := t.rowsFromTransactionCacheAndDatabase(table, where)
 		if err != nil {
 			return ovsdb.ResultFromError(err)
 		}
-
-		m := dbModel.Mapper
+		found := make([]*mapper.Info, 0, len(foundRowModels))
 		for _, rowModel := range foundRowModels {
 			info, err := dbModel.NewModelInfo(rowModel)
 			if err != nil {
 				return ovsdb.ResultFromError(err)
 			}
+			found = append(found, info)
+		}
 
-			foundMatch := true
-			for _, column := range columns {
-				columnSchema := info.Metadata.TableSchema.Column(column)
-				for _, r := range rows {
-					i, err := dbModel.NewModelInfo(model)
-					if err != nil {
-						return ovsdb.ResultFromError(err)
-					}
-					err = dbModel.Mapper.GetRowData(&r, i)
-					if err != nil {
-						return ovsdb.ResultFromError(err)
-					}
-					x, err := i.FieldByColumn(column)
-					if err != nil {
-						return ovsdb.ResultFromError(err)
-					}
-
-					// check to see if field value is default for given rows
-					// if it is default (not provided) we shouldn't try to compare
-					// for equality
-					if ovsdb.IsDefaultValue(columnSchema, x) {
-						continue
-					}
-					y, err := info.FieldByColumn(column)
-					if err != nil {
-						return ovsdb.ResultFromError(err)
-					}
-					if !reflect.DeepEqual(x, y) {
-						foundMatch = false
-					}
-				}
-			}
-
-			if foundMatch {
-				resultRow, err := m.NewRow(info)
+		// RFC 7047 5.2.6: the selected rows, projected on the columns, are
+		// compared with the given rows as sets: every selected row is among the
+		// given rows and every given row among the selected ones
+		equal := true
+		matched := make([]bool, len(expected))
+		for _, f := range found {
+			in := false
+			for i, e := range expected {
+				same, err := matches(f, e)
 				if err != nil {
 					return ovsdb.ResultFromError(err)
 				}
-				filteredRows = append(filteredRows, resultRow)
+				if same {
+					in = true
+					matched[i] = true
+				}
 			}
-
+			if !in {
+				equal = false
+			}
+		}
+		for _, m := range matched {
+			if !m {
+				equal = false
+			}
 		}
 
-		if until == "==" && len(filteredRows) == len(rows) {
-			return ovsdb.OperationResult{}
-		} else if until == "!=" && len(filteredRows) != len(rows) {
+		if (until == "==") == equal {
 			return ovsdb.OperationResult{}
 		}
 
